@@ -129,8 +129,11 @@ v("c12-twin-repr-fn", "C12", VR,
 # ---------------------------------------------------------------- C06
 DOU = "data_ops_utils.py"
 v("c06-merge-guard-reverted", "C06", DOU,
-  "        if len(ops2_columns_used.intersection(ops1_columns_produced)) > 0:\n            return None\n        new_ops = {k: ops1[k]",
-  "        new_ops = {k: ops1[k]")
+  "        if len(ops2_columns_used.intersection(ops1_columns_produced)) > 0:\n            return None\n        if len(ops1_columns_used.intersection(ops2_columns_produced)) > 0:\n            return None  # merged step would read and assign the same column\n        new_ops = {k: ops1[k]",
+  "        if len(ops1_columns_used.intersection(ops2_columns_produced)) > 0:\n            return None\n        new_ops = {k: ops1[k]")
+v("c06-merged-step-reads-what-it-assigns", "C06", DOU,
+  "        if len(ops1_columns_used.intersection(ops2_columns_produced)) > 0:\n            return None  # merged step would read and assign the same column\n",
+  "")
 v("c06-merge-guard-disjoint-branch", "C06", DOU,
   "    if len(ops2_columns_used.intersection(ops1_columns_produced)) > 0:\n        return None\n\n    # merge the extends",
   "    # merge the extends")
@@ -783,3 +786,27 @@ v("c18-count-numbered-in-row-order", "C18", PB,
   "                    if (zero_op == \"row_number\") or (\n                        (zero_op == \"count\") and (len(op.order_by) > 0)\n                    ):",
   "                    if zero_op in {\"row_number\", \"count\"}:")
 v("c03-order-rows-nulls-first", "C03", PM, "            by=op.order_columns, descending=reversed_cols, nulls_last=True\n", "            by=op.order_columns, descending=reversed_cols\n")
+
+
+# ---------------------------------------------------------------- reverts of the repairs D33-D39
+ER = "expr_rep.py"
+v("d33-implies-windowed-top-level-only", "C09", ER,
+  "        if uses_windowed_fn(opk):\n            return True",
+  "        if isinstance(opk, data_algebra.expr_rep.Expression) and opk.op in data_algebra.expr_rep.fn_names_that_imply_windowed_situation:\n            return True")
+v("d33-implies-windowed-top-level-only-c26", "C26", ER,
+  "            return any(uses_windowed_fn(ai) for ai in e.args)\n", "            return False\n")
+v("d35-size-not-windowed", "C09", ER, '    "_size",\n    "cumcount",', '    "cumcount",')
+v("d35-any-value-not-windowed-c26", "C26", ER, '    "any_value",\n    "bfill",', '    "bfill",')
+v("d36-keyed-check-drops-null-keys", "C09", PB,
+  "counts = table.groupby(column_names, observed=True, dropna=False).size()",
+  "counts = table.groupby(column_names, observed=True).size()")
+v("d37-same-windowing-ignores-partition", "C06", VR,
+  "                or (partition_by == 1)\n                or (len(partition_by) > 0)\n                or (len(order_by) > 0)\n            ) == self.windowed_situation",
+  "            ) == self.windowed_situation")
+v("d38-common-keys-crossed", "C26", VR,
+  "            ) - set([ka for ka, kb in zip(on_a, on_b) if ka == kb])", "            ) - set(on_a).intersection(on_b)")
+v("d39-terms-indexed-by-dependency-keys", "C04", SM,
+  "                        (term_dict.get(ki) is not None)\n                        and (term_dict.get(ki) != ki)",
+  "                        (term_dict[ki] is not None)\n                        and (term_dict[ki] != ki)")
+v("d39-twin-default-arg", "C04", SM,
+  "                        (term_dict.get(ki) is not None)\n", "                        (term_dict.get(ki, None) is not None)\n", expect="silent")
